@@ -373,6 +373,15 @@ type FuncResult struct {
 }
 
 func (e *Eng) VerifyFunc(fc *FuncContract) (res *FuncResult) {
+	return e.verifyFunc(fc, false, 0)
+}
+
+// RefuteFunc generates the bounded, quantifier-free counterexample-search VC.
+func (e *Eng) RefuteFunc(fc *FuncContract, k int) (res *FuncResult) {
+	return e.verifyFunc(fc, true, k)
+}
+
+func (e *Eng) verifyFunc(fc *FuncContract, refute bool, unrollK int) (res *FuncResult) {
 	full := shortPkg(fc.Pkg) + "." + fc.Name
 	res = &FuncResult{Name: full, Props: fc.Props, Assumed: fc.Assumed}
 	fn := e.findFunc(fc)
@@ -381,6 +390,7 @@ func (e *Eng) VerifyFunc(fc *FuncContract) (res *FuncResult) {
 		return
 	}
 	vc := NewVC(full)
+	vc.QF = refute
 	res.VC = vc
 	defer func() {
 		if r := recover(); r != nil {
@@ -394,29 +404,50 @@ func (e *Eng) VerifyFunc(fc *FuncContract) (res *FuncResult) {
 			}
 		}
 	}()
-	tr := &FnTr{eng: e, vc: vc, fn: fn, ct: fc, env: map[ssa.Value]Val{}}
+	tr := &FnTr{eng: e, vc: vc, fn: fn, ct: fc, env: map[ssa.Value]Val{}, refute: refute, unrollK: unrollK}
 	tr.top = tr
 	tr.recovering = hasRecover(fn)
 	m0 := vc.Fresh("M0", SMem)
-	a0 := vc.Fresh("alloc0", SInt)
-	vc.Assume(Le(Int(firstDynObj), a0))
+	var a0 *Term
+	if refute {
+		a0 = Int(firstDynObj)
+	} else {
+		a0 = vc.Fresh("alloc0", SInt)
+		vc.Assume(Le(Int(firstDynObj), a0))
+		dynBase = a0.Name
+	}
 	tr.entry = State{Reach: tTrue, Mem: m0, Alloc: a0}
 	for _, p := range fn.Params {
 		tr.params = append(tr.params, tr.freshVal("p_"+p.Name(), p.Type(), a0))
 	}
+	if refute {
+		// bounded search: parameter objects are pairwise distinct concrete ids (no aliasing)
+		next := int64(500000)
+		for pi, p := range tr.params {
+			for i, lf := range layoutOf(p.T).Leaves {
+				if lf.K == LObj && !lf.Str {
+					tr.params[pi].L[i] = Int(next)
+					next++
+				}
+			}
+		}
+	}
+	vc.Replay = &ReplayInfo{Fn: fn, Params: tr.params, M0: m0, Contract: fc}
 	ctx := tr.calleeCtx(fn, tr.params, nil, tr.entry, tr.entry)
 	for _, c := range fc.Requires {
 		vc.Assume(ctx.fact(c.E))
 	}
-	if tr.recovering && (fc.HasModifies || fc.Pure) {
+	if tr.recovering && (fc.HasModifies || fc.Pure) && !refute {
 		tr.storeChecks = true
 		for _, m := range fc.Modifies {
 			tr.fnFrame = append(tr.fnFrame, ctx.evalLval(m.E)...)
 		}
 	}
 	// vacuity guard: the preconditions (with typing facts) must be satisfiable
-	cov := vc.Oblige("cover", "requires", tTrue, fc.File)
-	cov.ExpectSat = true
+	if !refute {
+		cov := vc.Oblige("cover", "requires", tTrue, fc.File)
+		cov.ExpectSat = true
+	}
 	tr.run(tr.entry)
 	// normal exits
 	if len(tr.rets) > 0 {
@@ -476,7 +507,7 @@ func (tr *FnTr) checkPost(fc *FuncContract, fn *ssa.Function, results []Val, kin
 			tr.vc.Oblige("panics", labelOr(c.Label, i+1), Implies(tr.st.Reach, g), c.Pos)
 		}
 	}
-	if fc.HasModifies || fc.Pure {
+	if (fc.HasModifies || fc.Pure) && !tr.refute {
 		var frame []cellRange
 		ectx := tr.calleeCtx(fn, tr.params, nil, tr.entry, tr.entry)
 		for _, m := range fc.Modifies {
@@ -495,6 +526,39 @@ func (tr *FnTr) checkPost(fc *FuncContract, fn *ssa.Function, results []Val, kin
 // block returns the named results.
 func (tr *FnTr) exceptionalExit(fc *FuncContract, fn *ssa.Function) {
 	vc := tr.vc
+	if tr.refute {
+		// precise exceptional edges
+		var live []excEdge
+		for _, e := range tr.excEdges {
+			if !e.St.Reach.IsFalse() {
+				live = append(live, e)
+			}
+		}
+		if len(live) == 0 {
+			return
+		}
+		st := live[len(live)-1].St
+		rs := []*Term{st.Reach}
+		for i := len(live) - 2; i >= 0; i-- {
+			rs = append(rs, live[i].St.Reach)
+			st.Mem = Ite(live[i].St.Reach, live[i].St.Mem, st.Mem)
+			st.Alloc = Ite(live[i].St.Reach, live[i].St.Alloc, st.Alloc)
+		}
+		st.Reach = vc.Def("reach_exc", Or(rs...))
+		st.Mem = vc.Def("mem_exc", st.Mem)
+		st.Alloc = vc.Def("alloc_exc", st.Alloc)
+		tr.st = st
+		tr.rets = nil
+		tr.runDefers(true)
+		tr.in[fn.Recover] = []*Edge{{To: fn.Recover, St: tr.st}}
+		tr.procBlock(fn.Recover)
+		if len(tr.rets) == 0 {
+			return
+		}
+		res := tr.joinReturnsTop(tr)
+		tr.checkPost(fc, fn, res, "postexc", true)
+		return
+	}
 	st := State{Reach: tTrue}
 	st.Alloc = vc.Fresh("alloc_exc", SInt)
 	vc.Assume(Le(tr.entry.Alloc, st.Alloc))
